@@ -514,7 +514,8 @@ def gen_reach():
     ok, log, _ = common.lake_build(["GeckoModel.Generated.LifecycleTable", "GeckoModel.Model.Lifecycle"])
     if not ok:
         raise Untranslatable("the lifecycle model does not build against the regenerated table: " + log[-300:])
-    p = subprocess.run(["lake", "env", "lean", "--run", "Driver/C08Reach.lean", tag], cwd=common.LEAN, capture_output=True, text=True, timeout=900)
+    with common.BuildLock(shared=True):
+        p = subprocess.run(["lake", "env", "lean", "--run", "Driver/C08Reach.lean", tag], cwd=common.LEAN, capture_output=True, text=True, timeout=900)
     if p.returncode != 0 or "def reachSucc" not in p.stdout:
         raise Untranslatable("reach-set generator failed: " + (p.stderr or p.stdout)[-300:])
     return p.stdout
